@@ -28,9 +28,15 @@ open Ts
 
 def empty (n : Nat) : OrSwot := ⟨[], [], List.replicate n [], []⟩
 
-/-- `HLCTimestamp::new(min.datacake_timestamp().saturating_sub(FORGIVENESS_PERIOD), min.counter(),
-min.node())`. -/
-def forgive (F t : Nat) : Nat := pack (dts t - F) (counter t) (node t)
+/-- `compute_safe_last_stamp`: `if time < FORGIVENESS_PERIOD { new(0, 0, node) } else { new(time - FORGIVENESS_PERIOD,
+min.counter(), min.node()) }`. -/
+def forgive (F t : Nat) : Nat :=
+  if dts t < F then pack 0 0 (node t)      -- younger than the forgiveness period: the very first stamp of the node (fix D17)
+  else pack (dts t - F) (counter t) (node t)
+
+/-- The cut-off before the `fix:` commit for D17: `saturating_sub` clamps the time to 0 but the counter
+of the newest stamp is kept. -/
+def forgiveLegacy (F t : Nat) : Nat := pack (dts t - F) (counter t) (node t)
 
 /-- Minimum of a non-empty list given as head and tail (`Iterator::min`). -/
 def minList (x : Nat) (xs : List Nat) : Nat := xs.foldl min x
